@@ -1,0 +1,36 @@
+//go:build verif
+
+package asm
+
+// Lemma functions for /verif/cmd/vcgo (C14): what the assembler's writers
+// produce is decoded by the VM's real decoders to the values that were written.
+// Verified from the contracts of the writers and of the decoders only.
+// Compiled only under the `verif` tag.
+
+import (
+	"bytes"
+
+	"git.defalsify.org/vise.git/vm"
+)
+
+func lemmaLoadRoundTrip(s string, n uint32) (string, uint32, []byte, error) {
+	b := bytes.NewBuffer(nil)
+	writeSym(b, s)
+	writeSize(b, n)
+	return vm.ParseLoad(b.Bytes())
+}
+
+func lemmaTwoSymRoundTrip(s string, t string) (string, string, []byte, error) {
+	b := bytes.NewBuffer(nil)
+	writeSym(b, s)
+	writeSym(b, t)
+	return vm.ParseInCmp(b.Bytes())
+}
+
+func lemmaCatchRoundTrip(s string, n uint32, mode uint8) (string, uint32, bool, []byte, error) {
+	b := bytes.NewBuffer(nil)
+	writeSym(b, s)
+	writeSize(b, n)
+	b.Write([]byte{mode})
+	return vm.ParseCatch(b.Bytes())
+}
